@@ -35,6 +35,6 @@ var fixedOps = []string{
 	"rtsame 4 udt 2 a text b text us 2 a ptr s - b nilptr ustruct 2 a ptr string b ptr string",
 	"rtsame 3 list tuple 1 text sl struct 1 ptr string 2 st 1 ptr s - st 1 nilptr slice struct 1 ptr string",
 	"rtsame 4 udt 2 a text b int um 2 a s - b i int 0 umap", "rtsame 4 tuple 2 text int ifs 2 s - i int 0 slice iface",
-	// KF-C02-4: a struct field of another documented type than goType(elem) (model-vs-code: crash)
+	// KF-C02-4: a struct field of another documented type than goType(elem) (model-vs-code: uerr; a crash before the repair of KF-C05-18)
 	"rt 4 tuple 1 int st 1 i int32 5 struct 1 k int32",
 }
